@@ -34,6 +34,7 @@ RULE = (
     "the same rule; a failure is TemplateNotFoundError. Non-trivial = name contains a separator, '..', an absolute prefix, a symlink or a "
     "special character; distinct by (config, name)."
     " Rounds 5-6 added enumerated families: links into sibling directories whose names extend a root's name; a served file replaced by a link leaving the root, same loader asked again."
+    " Round 7 added: every enumerated name respelled with backslashes."
 )
 REQUIRED = [
     ("liquid/builtin/loaders/file_system_loader.py", "FileSystemLoader.resolve_path"),
